@@ -480,6 +480,8 @@ def refuse_only_rule(ctx, cls, mod):
         fn = core.need(core.find_func(cls, name), f"{CLS}.{name}")
         fn = normast.Normaliser(normast.class_resolver(mod, cls, module_funcs="small"), consts=normast.module_constants(mod)).function(fn)
         q = f"{CLS}.{name}"
+        from .. import astpat
+        RA_ = astpat.resolver(fn)[0]
 
         def paths_of(stmts, prefix):
             for path in _paths(stmts, prefix):
@@ -499,7 +501,8 @@ def refuse_only_rule(ctx, cls, mod):
                         seen_raises.add(id(e[1]))
                         n += 1
                         idx = path.index(e)
-                        cs = [(rtmodel.py_expr(x[1]), x[2]) for x in path[:idx] if x[0] == "cond"]
+                        # a guard held in a local bound once (`negative = v < 0.0; if np.any(negative)`) is read through
+                        cs = [(rtmodel.py_expr(RA_(x[1])), x[2]) for x in path[:idx] if x[0] == "cond"]
                         lits = estflow.literals(cs)
                         okr = lits is not None and any(bad(l) for l in lits)
                         ctx.oblige("REFUSE-ONLY", f"{F}:{q}", f"raise under `{' and '.join(('' if p_ else 'not ') + ast.unparse(t)[:50] for t, p_ in [(x[1], x[2]) for x in path[:idx] if x[0] == 'cond'])}`",
